@@ -556,3 +556,11 @@ V("c01-parse-variance-carried", "C01", "fire", LG, "    interventions = []\n    
 V("c01-silent-parse-single-append", "C01", "silent", LG, "    interventions = []\n    for (target, params) in interventions_dict.items():\n        # Mean and variance provided\n" + PARSE_OLD,
   "    interventions = []\n    for (target, params) in interventions_dict.items():\n        if type(params) == tuple and len(params) == 2:\n            mean, variance = params\n        elif type(params) in [float, int]:\n            mean, variance = params, 0\n        else:\n            raise ValueError(\"Wrongly specified intervention\")\n        interventions.append([target, mean, variance])\n",
   what="single append with both fields set in every branch")
+
+# ------------------------------------------------------------------------------- round-2 inspired (C01, C05)
+V("c01-forward-substitution", "C01", "fire", LG, "        A = np.linalg.inv(np.eye(self.p) - W.T)\n", "        A = np.eye(self.p)\n        for i in range(1, self.p):\n            A[i] += W[:i, i] @ A[:i]\n", rule="FORMULA.whole-W", what="forward substitution assumes the variables are indexed in topological order")
+V("c05-independence-shortcut", "C05", "fire", ND, "        cov_yx = utils.matrix_block(self.covariance, Y, X)\n", "        cov_yx = utils.matrix_block(self.covariance, Y, X)\n        if np.allclose(cov_yx, 0):\n            return self.marginal(Y)\n", rule="NODECISION", what="absolute-tolerance independence shortcut ignores x for small-scale variables")
+V("c05-precision-cache", "C05", "fire", ND, "        self.covariance = covariance.copy()\n", "        self.covariance = covariance.copy()\n        self._precisions = {}\n",
+  more=[(ND, "        mean = mean_y + cov_yx @ np.linalg.inv(cov_x) @ (x - mean_x)\n        covariance = cov_y - cov_yx @ np.linalg.inv(cov_x) @ cov_xy\n",
+         "        key = frozenset(X)\n        if key not in self._precisions:\n            self._precisions[key] = np.linalg.inv(cov_x)\n        prec = self._precisions[key]\n        mean = mean_y + cov_yx @ prec @ (x - mean_x)\n        covariance = cov_y - cov_yx @ prec @ cov_xy\n")],
+  rule="HISTORY", what="inverse cached under the unordered set of X: a second call with X in another order mixes two orderings")
